@@ -79,7 +79,11 @@ ExpectedRecords(d, module) ==
   ELSE IF d.kind = "span" THEN
          \* a span without recorded values may use the lifecycle target instead of its own (both are "corresponding")
          << [what |-> "new", level |-> d.level, target |-> IF AnyPresent(d) THEN tgt ELSE "tracing::span", alt |-> tgt] >>
-         \o [i \in 1..Len(SelectSeq(d.record, LAMBDA r : r.declared)) |-> [what |-> "record", level |-> d.level, target |-> tgt]]
+         \* one record per later Span::record of a declared field (by name or by the span's own Field key; undeclared names and
+         \* foreign keys: none) and per hand-built value set - which, with no entry of the span's own, counts as a lifecycle line
+         \o (LET rs == SelectSeq(d.record, LAMBDA r : r.declared) IN
+             [i \in 1..Len(rs) |-> [what |-> "record", level |-> d.level,
+                                    target |-> IF rs[i].set /\ ~(\E j \in DOMAIN rs[i].entries : rs[i].entries[j].own) THEN "tracing::span" ELSE tgt]])
          \o << [what |-> "enter", level |-> 5, target |-> "tracing::span::active"],
                [what |-> "exit", level |-> 5, target |-> "tracing::span::active"] >>
          \* d.guard2: the driver additionally clones the handle, enters it through the owned guard, exits and drops the clone:
